@@ -16,9 +16,10 @@ const ENTRIES = [
   { src: 'aloneMethod', allowedWithoutCallee: true },
   { src: 'cantAloneMethod' },
   { src: 'plusOperator', operator: false, dst: 'plusAsMethod' },
-  { src: 'trim', operator: true, dst: 'trimAsOperator' }
+  { src: 'trim', operator: true, dst: 'trimAsOperator' },
+  { src: 'tplOperator', dst: 'tplAsMethod' }
 ]
-const STMTS = 'let x = a + b; x += a; let t = `${a}${b}`; let m1 = a.trim(); let m2 = a.concat(b); let m3 = a.substring(1); let m4 = aloneMethod(a); let m5 = cantAloneMethod(a); let m6 = a.plusOperator(b); let m7 = s?.trim(); let m8 = String.prototype.concat.call(a, b); let m9 = a.slice(1); let m10 = o.aloneMethod(a); let m11 = String.prototype.substring.apply(a, [1, 2]); let m12 = a.at(1); let m13 = a.con(b); let m14 = a.trimEnd(); let m15 = a.Trim();'
+const STMTS = 'let x = a + b; x += a; let t = `${a}${b}`; let m1 = a.trim(); let m2 = a.concat(b); let m3 = a.substring(1); let m4 = aloneMethod(a); let m5 = cantAloneMethod(a); let m6 = a.plusOperator(b); let m7 = s?.trim(); let m8 = String.prototype.concat.call(a, b); let m9 = a.slice(1); let m10 = o.aloneMethod(a); let m11 = String.prototype.substring.apply(a, [1, 2]); let m12 = a.at(1); let m13 = a.con(b); let m14 = a.trimEnd(); let m15 = a.Trim(); let m16 = a.tplOperator(b);'
 const SIDE_BY_SIDE = `function main(a, b, s, o) {\n  ${STMTS}\n  {\n    ${STMTS}\n  }\n  const k = () => { ${STMTS} };\n}\nvar top = g1 + g2 + \`\${g1}\` + g1.trim();\n`
 const VARIANTS = [
   { name: 'dup-src', add: [{ src: 'trim', dst: 'trimSecond' }] },
@@ -57,7 +58,7 @@ async function build (tier) {
     dims.push({ name: 'variant', symbols: [null].concat(VARIANTS.map((v) => v.name)) })
     // one other option set next to the method list (the prologue and the closed world must not depend on it)
     dims.push({ name: 'extra', symbols: [null].concat(Object.keys(EXTRAS)) })
-    const r = enumerate(dims, { k: 1, valid: (cur, i) => { if (i >= 9 && i < 18 && cur['r' + (i - 9)] && !cur['e' + (i - 9)]) return false; return true } })
+    const r = enumerate(dims, { k: 1, valid: (cur, i) => { if (i >= ENTRIES.length && i < 2 * ENTRIES.length && cur['r' + (i - ENTRIES.length)] && !cur['e' + (i - ENTRIES.length)]) return false; return true } })
     stats = addStats(stats, r.stats)
     for (const l of r.leaves) {
       let methods = ENTRIES.map((e, i) => l.pick['r' + i] ? Object.assign({}, e, { dst: 'r' + i + '_' + e.src }) : e).filter((e, i) => l.pick['e' + i])
@@ -96,7 +97,7 @@ async function build (tier) {
     stats = addStats(stats, r.stats)
     for (const hist of r.histories) leaves.push({ fam: 'events', key: 'ev¦' + hist.join(','), hist })
   }
-  return { leaves, stats, bound: { lattice: tier === 'thorough' ? '3^9 assignments {absent, present, renamed} of 9 entries x up to 1 variant' : '2^9 present/absent subsets of 9 entries x (nothing | one entry renamed | one of 4 variants)', options: '2^6 presence patterns x 7 verbosity spellings + non-object configs', event_history_length: tier === 'thorough' ? 6 : 5 }, alphabets: { entries: ENTRIES, variants: VARIANTS.map((v) => v.name), events: EVENTS } }
+  return { leaves, stats, bound: { lattice: tier === 'thorough' ? '3^10 assignments {absent, present, renamed} of 10 entries x up to 1 variant' : '2^10 present/absent subsets of 10 entries x (nothing | one entry renamed | one of 4 variants)', options: '2^6 presence patterns x 7 verbosity spellings + non-object configs', event_history_length: tier === 'thorough' ? 6 : 5 }, alphabets: { entries: ENTRIES, variants: VARIANTS.map((v) => v.name), events: EVENTS } }
 }
 
 function requests (leaf) {
